@@ -39,7 +39,7 @@ var c15Reqs = []c15Req{
 type C15Scn struct {
 	Req        int      `json:"req"`
 	SubMode    string   `json:"sub_mode"` // chan | err | nil | value | panic_err | panic_str | panic_int | closed
-	Events     []int    `json:"events"`   // per event: 0 ok, 1 a nullable field fails, 2 a non-null field fails
+	Events     []int    `json:"events"`   // per event: 0 ok, 1 a nullable field fails, 2 a non-null field fails, 3 a nil payload
 	Consumer   string   `json:"consumer"` // prompt | slow | stops
 	StopAfter  int      `json:"stop_after"`
 	End        string   `json:"end"`         // close | cancel | close+cancel
@@ -77,7 +77,7 @@ func (p c15) Gen(seed uint64, enum int, tier string) json.RawMessage {
 			s.Req = 0
 			s.SubMode = c15SubModes[enum-len(c15Reqs)]
 		}
-		s.Events = []int{0, 1, 0}
+		s.Events = []int{0, 1, 3, 0}
 		s.StopAfter = 1
 		s.Park = c15AllPark
 		return mustJSON(s)
@@ -91,7 +91,7 @@ func (p c15) Gen(seed uint64, enum int, tier string) json.RawMessage {
 		s.SubMode = c15SubModes[r.Intn(len(c15SubModes))]
 	}
 	for n := r.Intn(6); n > 0; n-- {
-		s.Events = append(s.Events, []int{0, 0, 0, 1, 2}[r.Intn(5)])
+		s.Events = append(s.Events, []int{0, 0, 0, 1, 2, 3}[r.Intn(6)])
 	}
 	s.Consumer = []string{"prompt", "prompt", "slow", "stops"}[r.Intn(4)]
 	s.StopAfter = r.Intn(3)
@@ -162,6 +162,15 @@ func c15Faults(rq c15Req, events []int) map[string]string {
 	return f
 }
 
+// c15Payload is the value of source event i: normally a token naming the
+// event, for mode 3 a nil payload (a legal event, not the end of the stream).
+func c15Payload(events []int, i int) interface{} {
+	if events[i] == 3 {
+		return nil
+	}
+	return Ev{N: i}
+}
+
 const c15CtxErrJSON = `{"data":null,"errors":[{"message":"context canceled","locations":[]}]}`
 
 func (c15) Run(t TestingT, scn json.RawMessage, tape *Tape) *Outcome {
@@ -183,7 +192,7 @@ func (c15) Run(t TestingT, scn json.RawMessage, tape *Tape) *Outcome {
 		sw := NewWorld("A")
 		for i := range sc.Events {
 			rc := &ReqCtx{Task: "solo", W: sw, Faults: faults}
-			solo = append(solo, MarshalResult(graphql.Execute(graphql.ExecuteParams{Schema: sw.Schema, Root: Ev{N: i}, AST: doc, OperationName: rq.Op, Context: WithReq(context.Background(), rc)})))
+			solo = append(solo, MarshalResult(graphql.Execute(graphql.ExecuteParams{Schema: sw.Schema, Root: c15Payload(sc.Events, i), AST: doc, OperationName: rq.Op, Context: WithReq(context.Background(), rc)})))
 		}
 	}
 
@@ -342,7 +351,7 @@ func (c15) Run(t TestingT, scn json.RawMessage, tape *Tape) *Outcome {
 					s.Gate("prod", "prod:send", strconv.Itoa(i))
 					s.Note("prod", "prod:sending", strconv.Itoa(i))
 					select {
-					case src <- Ev{N: i}:
+					case src <- c15Payload(sc.Events, i):
 						s.Note("prod", "prod:sent", strconv.Itoa(i))
 					case <-ctx.Done():
 						s.Note("prod", "prod:gave-up", strconv.Itoa(i))
